@@ -245,6 +245,20 @@ def run_program(ls, rng, fc, mask, nzcv):
             if exc == 'hyptrap' and (post['cpsr'] & 0x1F) == 0b11010:
                 ctx.cpu.registers.hcr.twi = 0
         if diffs:
+            # a difference that one of the recorded findings (known_findings.json: PUSH T2 with an unaligned SP, CBZ's offset...)
+            # explains completely belongs to that finding's properties, not to the IT machinery: the program is dropped there
+            from vf.ref import deviations
+            from vf.ref import step as RS_
+            explained = False
+            for dev in deviations.for_row(info.get('row') or ''):
+                v2, ref2, info2 = RS_.step(pre, ctx.cfg, deviation=dev)
+                if v2 == 'ok' and not RS_.compare(ref2, post):
+                    explained = True
+                    break
+            if explained:
+                ls.bump('programs_dropped_at_a_recorded_finding_of_another_property')
+                stopped_early = True
+                break
             kinds_ = sorted({lockstep_categ(l, e, g, ref) for l, e, g in diffs})
             ls.report('C08|step|%s|%s' % (info.get('row'), ','.join(kinds_)[:60]),
                       dict(d2, row=info.get('row'), diffs=[(l, '%#x' % e if isinstance(e, int) else str(e),
